@@ -327,10 +327,12 @@ func sliceLiteralElem(e *Env, v ssa.Value) string {
 	return e.Term(v)
 }
 
-func c07r2(c *Ctx) {
-	const rule = "C07-R2"
+func c07r2(c *Ctx) { handOverRules(c, "C07-R2", "C07-R3") }
+
+// handOverRules: the counter moves with the create role (shared by C07-R2/R3 and, as the freshness clause of creation, C02-R5).
+func handOverRules(c *Ctx, rule, rule3 string) {
 	c.Rule(rule, "hand-over: the counter moves with the role (old holder zeroed and stripped, value shipped / written to the new holder)", 7)
-	c.Rule("C07-R3", "hand-over, next owner: counter from the message, role added", 2)
+	c.Rule(rule3, "hand-over, next owner: counter from the message, role added", 2)
 	r, ok := c.P.RegByName()["ESDTNFTCreateRoleTransfer"]
 	if !ok || r.Entry == nil {
 		c.Anchor(rule, "registration of ESDTNFTCreateRoleTransfer")
@@ -494,13 +496,13 @@ func c07r2(c *Ctx) {
 			good := len(g.writes) == 1 && g.writes[0].acct == x.dst && g.writes[0].token == x.arg(0) && g.writes[0].val == want
 			pos := c.P.Pos(g.fn.Pos())
 			if good && cutsSuccess(topCall(g.writes[0])) {
-				c.OK("C07-R3", FuncName(g.fn), "next owner: counter set from the message", pos, want)
+				c.OK(rule3, FuncName(g.fn), "next owner: counter set from the message", pos, want)
 			} else {
 				got := "?"
 				if len(g.writes) > 0 {
 					got = g.writes[0].val
 				}
-				c.Fail("C07-R3", "violation", FuncName(g.fn), "next owner: counter set from the message", pos, "the new holder's counter is "+got+", expected the number decoded from Arguments[1] written on every successful path")
+				c.Fail(rule3, "violation", FuncName(g.fn), "next owner: counter set from the message", pos, "the new holder's counter is "+got+", expected the number decoded from Arguments[1] written on every successful path")
 			}
 			added := false
 			for _, rcall := range roleOps {
@@ -509,9 +511,9 @@ func c07r2(c *Ctx) {
 				}
 			}
 			if added {
-				c.OK("C07-R3", FuncName(g.fn), "next owner: create role added on every successful path", pos, "role added")
+				c.OK(rule3, FuncName(g.fn), "next owner: create role added on every successful path", pos, "role added")
 			} else {
-				c.Fail("C07-R3", "violation", FuncName(g.fn), "next owner: create role added on every successful path", pos, "the next owner receives the counter but not the create role")
+				c.Fail(rule3, "violation", FuncName(g.fn), "next owner: create role added on every successful path", pos, "the next owner receives the counter but not the create role")
 			}
 		}
 	}
